@@ -26,6 +26,12 @@ CLAIMED = {
     note="Trusted: pymbolic IdentityMapper dispatch (A-ID), the structural induction rule, deque/reduce models, engine + solvers. Termination of map_Block's queue loop only bounded. Bounded stand-in (labelled): exhaustive trees up to 5-6 nodes + random tail on the real simplify_ast under all valuations.",
     technique="contract-based deductive verification: ast->z3 VC generation over a tree ADT, CPS trace semantics, loop invariants on the deque algorithm",
     ref="6/C06"),
+
+ "C05": dict(cat="proof",
+    text="create_ast_from_phase (iterative DFS + wrapping loop), loop_to_ast_node, conditional_to_ast and statement_to_ast are symbolically executed from dag_ast.py: the DFS invariant gives a duplicate-free topological order containing every sink (with A-SINK: every statement); the wrappers are proved against the property-level trace spec (statement inside exactly its declared loops, outermost first, guard innermost); the main block's trace is proved to be the guarded execution of that order without Nops, and by C06's contract so is the returned tree's. Storage-order independence holds by construction (no unordered iteration is executed; sorted() is a function of the set).",
+    note="Trusted: A-SORT, Record.copy, C06's contract for simplify_ast, induction rule for the loop nest. lower_node/get_statements_in_ast only in the bounded stand-in (exhaustive phases <= 3-4 statements in all storage orders + random tail).",
+    technique="contract-based deductive verification: ast->z3 VC generation, DFS invariant with ghost positions, CPS trace spec",
+    ref="6/C05"),
 }
 
 NOT_APPLICABLE = {
